@@ -14,23 +14,33 @@ fn image(e: End) -> Vec<u8> {
     ref_bin::write_canonical(&c)
 }
 
-/// Every call here is expected to return Err (or at least to be harmless); results are ignored.
-pub fn failing_calls() {
-    let _ = vcore::util::catch(|| {
-        for (e, me) in [(End::Little, Endian::Little), (End::Big, Endian::Big)] {
-            let img = image(e);
-            for cut in [img.len() - 1, img.len() - 2, img.len() - 13, 0x21, 0x1F] {
-                let _ = BinArchive::from_bytes(&img[..cut.min(img.len())], me);
-                let _ = TextArchive::from_bytes(&img[..cut.min(img.len())], TextArchiveFormat::ShiftJIS, me);
-                let _ = TextArchive::from_bytes(&img[..cut.min(img.len())], TextArchiveFormat::Unicode, me);
-            }
-            // a text archive whose last UTF-16 message lost its terminator
+/// The individual calls, in a fixed order. Every one is expected to return Err or at least to
+/// be harmless; results are ignored.
+pub fn calls() -> Vec<Box<dyn Fn() + Send + Sync>> {
+    let mut v: Vec<Box<dyn Fn() + Send + Sync>> = Vec::new();
+    for (e, me) in [(End::Little, Endian::Little), (End::Big, Endian::Big)] {
+        let img = image(e);
+        for cut in [img.len() - 1, img.len() - 2, img.len() - 13, 0x21, 0x1F] {
+            let part = img[..cut.min(img.len())].to_vec();
+            let p2 = part.clone();
+            let p3 = part.clone();
+            v.push(Box::new(move || {
+                let _ = BinArchive::from_bytes(&part, me);
+            }));
+            v.push(Box::new(move || {
+                let _ = TextArchive::from_bytes(&p2, TextArchiveFormat::ShiftJIS, me);
+            }));
+            v.push(Box::new(move || {
+                let _ = TextArchive::from_bytes(&p3, TextArchiveFormat::Unicode, me);
+            }));
+        }
+        // a text archive whose last UTF-16 message lost its terminator
+        v.push(Box::new(move || {
             let mut t = TextArchive::new(TextArchiveFormat::Unicode, me);
             t.set_title("poison".into());
             t.set_message("K", "poison message");
             if let Ok(b) = t.serialize() {
                 let mut b2 = b.clone();
-                // overwrite the terminator + padding of the message with non-zero units
                 let n = b2.len();
                 if n > 0x40 {
                     let d = u32::from_le_bytes([b[4], b[5], b[6], b[7]]) as usize;
@@ -43,30 +53,54 @@ pub fn failing_calls() {
                 }
                 let _ = TextArchive::from_bytes(&b2, TextArchiveFormat::Unicode, me);
             }
-        }
+        }));
+    }
+    v.push(Box::new(|| {
         let img = image(End::Little);
         let _ = arc::from_bytes(&img[..img.len() - 1]);
-        let _ = arc::from_bytes(&img);
+    }));
+    v.push(Box::new(|| {
+        let _ = arc::from_bytes(&image(End::Little));
+    }));
+    v.push(Box::new(|| {
         let _ = fe9_arc::parse(b"pack\x00\x02\x00\x00\x00\x00\x00\x00\x00\x00\x00\x28\x00\x00\x00\x40\x00\x00\x00\x05");
+    }));
+    v.push(Box::new(|| {
         let _ = fe9_arc::parse(b"pack\x00\x01\x00\x00\x00\x00\x00\x00\x00\x00\x00\x18\x00\x00\x00\x20\x00\x00\x00\x00unterminated-name");
-        for s in [&[0x10u8, 0x40, 0, 0, 0x00, 1, 2, 3][..], &[0x11, 0x40, 0, 0, 0x80, 0x10][..], &[0x13, 0, 0, 0, 0x11, 9, 0, 0, 0, 1][..], &[0x10, 3, 0, 0, 0x80, 0xF0, 0xFF][..]] {
-            let _ = (LZ10CompressionFormat {}).decompress(s);
-            let _ = (LZ13CompressionFormat {}).decompress(s);
-        }
+    }));
+    for s in [&[0x10u8, 0x40, 0, 0, 0x00, 1, 2, 3][..], &[0x11, 0x40, 0, 0, 0x80, 0x10][..], &[0x13, 0, 0, 0, 0x11, 9, 0, 0, 0, 1][..], &[0x10, 3, 0, 0, 0x80, 0xF0, 0xFF][..]] {
+        let s1 = s.to_vec();
+        let s2 = s.to_vec();
+        v.push(Box::new(move || {
+            let _ = (LZ10CompressionFormat {}).decompress(&s1);
+        }));
+        v.push(Box::new(move || {
+            let _ = (LZ13CompressionFormat {}).decompress(&s2);
+        }));
+    }
+    v.push(Box::new(|| {
         let _ = (LZ13CompressionFormat {}).compress(&[]);
+    }));
+    v.push(Box::new(|| {
         let _ = (LZ10CompressionFormat {}).compress(&[]);
-        // calls that may SUCCEED but feed odd data through shared code: strings ending in a
-        // dangling Shift-JIS lead byte, a lone trail-range byte, an unassigned two-byte code
-        for tail in [&[b'a', 0x83][..], &[0x83], &[0xFA], &[b'b', 0xFC, 0xFC], &[0x81, 0x20], &[0xA0], &[0x80], &[0xFD, 0xFE, 0xFF], &[0xEF, 0xBB, 0xBF, b'x']] {
+    }));
+    // calls that may SUCCEED but feed odd data through shared code: strings ending in a
+    // dangling Shift-JIS lead byte, a lone trail-range byte, an unassigned two-byte code
+    for tail in [&[b'a', 0x83][..], &[0x83], &[0xFA], &[b'b', 0xFC, 0xFC], &[0x81, 0x20], &[0xA0], &[0x80], &[0xFD, 0xFE, 0xFF], &[0xEF, 0xBB, 0xBF, b'x']] {
+        let t1 = tail.to_vec();
+        v.push(Box::new(move || {
             let mut pack = b"pack\x00\x01\x00\x00\x00\x00\x00\x00\x00\x00\x00\x18\x00\x00\x00\x40\x00\x00\x00\x01".to_vec();
-            pack.extend_from_slice(tail);
+            pack.extend_from_slice(&t1);
             pack.push(0);
             pack.resize(0x41, 0x77);
             let _ = fe9_arc::parse(&pack);
-            for (e, me) in [(End::Little, Endian::Little), (End::Big, Endian::Big)] {
+        }));
+        for (e, me) in [(End::Little, Endian::Little), (End::Big, Endian::Big)] {
+            let tail = tail.to_vec();
+            v.push(Box::new(move || {
                 // bin archive: one string cell whose text is `tail`, one label named `tail`
                 let mut img: Vec<u8> = Vec::new();
-                let w = |v: u32| if e == End::Little { v.to_le_bytes() } else { v.to_be_bytes() };
+                let w = |x: u32| if e == End::Little { x.to_le_bytes() } else { x.to_be_bytes() };
                 let text_len = 2 * (tail.len() + 1);
                 let total = 0x20 + 4 + 4 + 8 + text_len;
                 img.extend_from_slice(&w(total as u32));
@@ -74,20 +108,22 @@ pub fn failing_calls() {
                 img.extend_from_slice(&w(1));
                 img.extend_from_slice(&w(1));
                 img.extend_from_slice(&[0; 16]);
-                img.extend_from_slice(&w((4 + 4 + 8 + tail.len() + 1) as u32)); // string pointer (relative to 0x20)
-                img.extend_from_slice(&w(0)); // pointer table: cell 0
-                img.extend_from_slice(&w(0)); // label on address 0
-                img.extend_from_slice(&w(0)); // name offset 0
-                img.extend_from_slice(tail);
+                img.extend_from_slice(&w((4 + 4 + 8 + tail.len() + 1) as u32));
+                img.extend_from_slice(&w(0));
+                img.extend_from_slice(&w(0));
+                img.extend_from_slice(&w(0));
+                img.extend_from_slice(&tail);
                 img.push(0);
-                img.extend_from_slice(tail);
+                img.extend_from_slice(&tail);
                 img.push(0);
                 let _ = BinArchive::from_bytes(&img, me).map(|a| a.serialize());
                 let _ = TextArchive::from_bytes(&img, TextArchiveFormat::ShiftJIS, me);
-            }
+            }));
         }
-        // failing SERIALIZE calls: an unencodable text that is not the first text of the archive
-        for me in [Endian::Little, Endian::Big] {
+    }
+    // failing SERIALIZE calls: an unencodable text that is not the first text of the archive
+    for me in [Endian::Little, Endian::Big] {
+        v.push(Box::new(move || {
             let mut a = BinArchive::new(me);
             a.allocate_at_end(12);
             let _ = a.write_label(0, "poison-ok-label");
@@ -95,36 +131,73 @@ pub fn failing_calls() {
             let _ = a.write_string(4, Some("poison \u{1F600} unencodable"));
             let _ = a.write_c_string(8, "poison-cstring".to_string());
             let _ = a.serialize();
+        }));
+        v.push(Box::new(move || {
             let mut b = BinArchive::new(me);
             b.allocate_at_end(8);
             let _ = b.write_c_string(0, "poison-ok-cstring".to_string());
             let _ = b.write_c_string(4, "poison \u{301C}".to_string());
             let _ = b.serialize();
+        }));
+        v.push(Box::new(move || {
             let mut t = TextArchive::new(TextArchiveFormat::ShiftJIS, me);
             t.set_message("POISON_OK", "fine");
             t.set_message("POISON_BAD", "wave \u{301C} dash");
             let _ = t.serialize();
+        }));
+        v.push(Box::new(move || {
             let mut t = TextArchive::new(TextArchiveFormat::Unicode, me);
             t.set_title("poison \u{1F600}".into());
             t.set_message("POISON \u{1F600}", "x");
             let _ = t.serialize();
-        }
-        {
-            let mut m: indexmap::IndexMap<String, Vec<u8>> = indexmap::IndexMap::new();
-            m.insert("poison-ok.bin".into(), vec![1, 2, 3]);
-            m.insert("poison-\u{1F600}.bin".into(), vec![4]);
-            let _ = fe9_arc::serialize(&m);
-        }
-        let junk: Vec<u8> = (0..96u8).map(|i| i.wrapping_mul(37)).collect();
-        let _ = ctpk::read(&junk);
-        let _ = bch::read(&junk);
-        let _ = cgfx::read(&junk);
-        let _ = Tpl::extract_textures(&junk);
-        let mut b = b"BCH\0".to_vec();
-        b.extend_from_slice(&junk);
-        let _ = bch::read(&b);
-        let mut c = b"CGFX".to_vec();
-        c.extend_from_slice(&junk);
-        let _ = cgfx::read(&c);
-    });
+        }));
+    }
+    v.push(Box::new(|| {
+        let mut m: indexmap::IndexMap<String, Vec<u8>> = indexmap::IndexMap::new();
+        m.insert("poison-ok.bin".into(), vec![1, 2, 3]);
+        m.insert("poison-\u{1F600}.bin".into(), vec![4]);
+        let _ = fe9_arc::serialize(&m);
+    }));
+    let junk: Vec<u8> = (0..96u8).map(|i| i.wrapping_mul(37)).collect();
+    for k in 0..6 {
+        let junk = junk.clone();
+        v.push(Box::new(move || {
+            let mut b = b"BCH\0".to_vec();
+            b.extend_from_slice(&junk);
+            let mut c = b"CGFX".to_vec();
+            c.extend_from_slice(&junk);
+            match k {
+                0 => drop(ctpk::read(&junk)),
+                1 => drop(bch::read(&junk)),
+                2 => drop(cgfx::read(&junk)),
+                3 => drop(Tpl::extract_textures(&junk)),
+                4 => drop(bch::read(&b)),
+                _ => drop(cgfx::read(&c)),
+            }
+        }));
+    }
+    v
+}
+
+fn the_calls() -> &'static Vec<Box<dyn Fn() + Send + Sync>> {
+    static C: std::sync::OnceLock<Vec<Box<dyn Fn() + Send + Sync>>> = std::sync::OnceLock::new();
+    C.get_or_init(calls)
+}
+
+pub fn count() -> usize {
+    the_calls().len()
+}
+
+/// ONE call of the series (state that is consumed by the very next operation shows only when
+/// that operation is the case under test).
+pub fn single_call(i: usize) {
+    let c = the_calls();
+    let _ = vcore::util::catch(|| (c[i % c.len()])());
+}
+
+/// The whole series.
+pub fn failing_calls() {
+    for i in 0..count() {
+        single_call(i);
+    }
 }
